@@ -260,6 +260,25 @@ def run(chk, ctx):
                            and n.func.value.id == p and n.func.attr in MUTATORS) or
                           (isinstance(n, ast.Subscript) and isinstance(n.ctx, ast.Store) and isinstance(n.value, ast.Name) and n.value.id == p)
                           for n in ast.walk(f))
+                # the default object kept on the instance (`self.x = p`) and filled through any method of the class
+                attrs = {t.attr for n in ast.walk(f) if isinstance(n, ast.Assign) and isinstance(n.value, ast.Name) and n.value.id == p
+                         for t in n.targets if isinstance(t, ast.Attribute) and isinstance(t.value, ast.Name) and t.value.id == "self"}
+                if attrs and "." in q:
+                    cname = q.split(".")[0]
+                    for rel2, q2, f2 in all_fns:
+                        if rel2 != rel or not q2.startswith(cname + "."):
+                            continue
+                        for n in ast.walk(f2):
+                            tgt = None
+                            if isinstance(n, ast.Call) and isinstance(n.func, ast.Attribute) and n.func.attr in MUTATORS:
+                                tgt = n.func.value
+                            elif isinstance(n, ast.Subscript) and isinstance(n.ctx, (ast.Store, ast.Del)):
+                                tgt = n.value
+                            elif isinstance(n, ast.AugAssign):
+                                tgt = n.target
+                            if isinstance(tgt, ast.Attribute) and isinstance(tgt.value, ast.Name) and tgt.value.id == "self" \
+                                    and tgt.attr in attrs:
+                                mut = True
                 chk.decide("C15.OWN", f"{rel[:-3].replace('/', '.')}.{q}#default-{p}", False if mut else True,
                            f"parameter {p} has a mutable default" + (" and is mutated: state leaks between calls" if mut else " but is not mutated"),
                            rel=rel, node=f)
